@@ -28,7 +28,7 @@ WEIGHTS = {'layered': 8, 'exact_counts': 3, 'split_candidate': 2, 'merge_chain':
 
 @st.composite
 def strategy_(draw):
-    case = draw(S.pipeline_case(WEIGHTS, vary=('msa', 'okta', 'sep', 'base'), p_default_prms=0.0, exclude=False,
+    case = draw(S.pipeline_case(WEIGHTS, vary=('msa', 'okta', 'sep', 'base'), p_default_prms=0.0, exclude=False, index_kinds=True,
                                 msa_kinds=['athit'] * 4 + ['near'] * 3 + ['low', 'high', 'zero', 'none']))
     case['redraw'] = draw(st.lists(st.sampled_from([0.0, 0.5, 1.0, 7.0, 100.0, 1000.0, 20000.0, 50000.0]),
                                    min_size=1, max_size=8))
@@ -122,6 +122,8 @@ def check(case):
             res.skipped = 'B2 frame rejected by the screening model'
     res.nontrivial = bool(above) and n_below > 0
     types_above = sorted(set(rows[i][3] for i in above))
+    if case.get('index', 'range') != 'range':
+        res.labels.append('index:' + case['index'])
     if on_limit:
         res.labels.append('hit-on-limit')
     if any(t >= 2 for t in types_above):
